@@ -51,6 +51,17 @@ func init() {
 					out = append(out, c)
 				}
 			}
+			// a read while an Append creates a new asset (in-memory and SQL)
+			for _, kind := range []int{0, 2} {
+				for op := 0; op <= 3; op++ {
+					for sched := 0; sched <= 2; sched++ {
+						c := cs("H_C10_ConcRead", kind, op)
+						c.Sched = sched
+						c.Cert, c.TrackMem = true, true // race analysis; lock order stays schedule-dependent
+						out = append(out, c)
+					}
+				}
+			}
 			// two Append calls on one asset alive at the same time (in-memory and SQL): lock
 			// acquisition order is schedule-dependent, so no certificate is asked for; the
 			// three scheduling policies are run instead and shared memory is tracked for races
@@ -65,12 +76,12 @@ func init() {
 							for sched := 0; sched <= 2; sched++ {
 								c := cs("H_C10_Conc", kind, n0, n1, n2, 0)
 								c.Sched = sched
-								c.TrackMem = true
+								c.Cert, c.TrackMem = true, true
 								out = append(out, c)
 							}
 							for pace := 1; pace <= 2; pace++ {
 								c := cs("H_C10_Conc", kind, n0, n1, n2, pace)
-								c.TrackMem = true
+								c.Cert, c.TrackMem = true, true
 								out = append(out, c)
 							}
 						}
